@@ -223,12 +223,14 @@ fn lower_sub_ast_to_instrs(
             // this is the second time we're using encode_args (first time was to get labels), so suppress warnings
             let null_emitter = ctx.emitter.with_writer(crate::diagnostic::dev_null());
             encode_args(&mut encoding_state, hooks, &instr, &ctx.defs, &null_emitter)
-                .expect("we encoded this successfully before!")
+                // The sizing pass used dummy values for labels.  An error that only shows up now is about
+                // the value of a label property (e.g. out of range for its field), so report it for real.
+                .or_else(|_| encode_args(&mut ArgEncodingState::new(), hooks, &instr, &ctx.defs, ctx.emitter))
         }),
         LowerStmt::Label { .. } => None,
         LowerStmt::RegAlloc { .. } => None,
         LowerStmt::RegFree { .. } => None,
-    }).collect();
+    }).collect::<Result<Vec<_>, _>>()?;
     let debug_info = do_debug_info.then(|| debug_info::ScriptLoweringInfo {
         register_info: debug_info_registers.unwrap(),
         offset_info: debug_info_labels.unwrap(),
@@ -542,7 +544,14 @@ fn encode_args(
 
             if extra_arg.is_none() {
                 assert!(!first_normal_arg.expect_raw().is_reg, "checked above");
-                extra_arg = Some(first_normal_arg.expect_raw().expect_int() as _);
+                let value = first_normal_arg.expect_raw().expect_int();
+                if raw::ExtraArg::try_from(value).is_err() {
+                    return Err(emitter.emit(error!(
+                        message("value out of range for timeline arg0"),
+                        primary(first_normal_arg, "{value} does not fit (valid range: {} to {})", raw::ExtraArg::MIN, raw::ExtraArg::MAX),
+                    )));
+                }
+                extra_arg = Some(value as _);
             } else {
                 // Explicit @arg0, but also drawn from args.
                 // To keep the type checker's job simpler, we took an argument from the argument list anyways,
@@ -606,6 +615,22 @@ fn encode_args(
             )).ignore();
             // Should be impossible to trigger once padding is
             // converted to not be optional arguments? Panic?
+        }
+
+        // values that do not fit in a sub-dword field would silently be written as a different value
+        if let ArgEncoding::Integer { size: size@(1 | 2), format: ast::IntFormat { signed, .. }, .. } = *enc {
+            let value = arg.expect_raw().expect_int() as i64;
+            let bits = 8 * size as u32;
+            let (min, max) = match signed {
+                true => (-(1i64 << (bits - 1)), (1i64 << (bits - 1)) - 1),
+                false => (0, (1i64 << bits) - 1),
+            };
+            if !(min <= value && value <= max) {
+                return Err(emitter.emit(error!(
+                    message("value out of range for {}", enc.descr()),
+                    primary(arg, "{value} does not fit (valid range: {min} to {max})"),
+                )));
+            }
         }
 
         match *enc {
